@@ -52,6 +52,8 @@ type rec struct {
 	client           int
 	enqStart, enqEnd int
 	enqEndAt         time.Duration
+	enqStartAt       time.Duration
+	never            bool
 	execs            int
 	execStart        int
 	execEnd          int
@@ -76,7 +78,11 @@ type monitor struct {
 
 func tenth(d int) time.Duration { return time.Duration(d) * 100 * time.Microsecond }
 
-func mkExec(scripts [][]op, epoch time.Time) *mc.Exec {
+// farFuture is the "never" sentinel callers use (more than 292 years ahead, so
+// that durations to it saturate).
+var farFuture = time.Date(9999, 12, 31, 0, 0, 0, 0, time.UTC)
+
+func mkExec(scripts [][]op, epoch time.Time, timeline bool) *mc.Exec {
 	m := &monitor{}
 	var p *queue.Processor[string, *item]
 	byID := map[int]*rec{}
@@ -103,7 +109,14 @@ func mkExec(scripts [][]op, epoch time.Time) *mc.Exec {
 						m.items = append(m.items, r)
 						byID[r.id] = r
 						r.enqStart = mc.Step()
-						p.Enqueue(&item{key: o.key, due: epoch.Add(r.due), id: r.id})
+						r.enqStartAt = mc.ModelNow()
+						when := epoch.Add(r.due)
+						if o.due < 0 {
+							when = farFuture
+							r.due = farFuture.Sub(epoch)
+							r.never = true
+						}
+						p.Enqueue(&item{key: o.key, due: when, id: r.id})
 						r.enqEnd = mc.Step()
 						r.enqEndAt = mc.ModelNow()
 					case 'D':
@@ -181,6 +194,18 @@ func mkExec(scripts [][]op, epoch time.Time) *mc.Exec {
 			}
 			after, conc := cancelsOf(r)
 			if r.execs == 1 {
+				// timeline mode (the clock moves only when nothing else can run, to
+				// the next armed deadline): "when the clock reaches its scheduled
+				// time" is exact — the loop must have armed a timer for the head
+				if timeline && !conc && len(after) == 0 {
+					want := r.due
+					if r.enqStartAt > want {
+						want = r.enqStartAt
+					}
+					if r.execAt > want {
+						return fmt.Errorf("[key=executed-late] item %d (%s due %v, enqueued at %v) executed only at %v although time moves only at quiescence: no timer was armed for it", r.id, r.key, r.due, r.enqStartAt, r.execAt)
+					}
+				}
 				if r.execAt < r.due-500*time.Microsecond {
 					return fmt.Errorf("item %d (%s) executed at %v, more than 0.5ms before its time %v", r.id, r.key, r.execAt, r.due)
 				}
@@ -199,6 +224,8 @@ func mkExec(scripts [][]op, epoch time.Time) *mc.Exec {
 						return fmt.Errorf("callback of item %d running or started after Close returned (exec %d..%d, Close returned at %d)", r.id, r.execStart, r.execEnd, c.end)
 					}
 				}
+			} else if r.never {
+				// a far-future item legitimately stays queued
 			} else if !closed && len(after) == 0 && !conc {
 				return fmt.Errorf("stranded: live item %d (%s due %v, enqueued by client%d) never executed; now=%v, armed timers=%d, parked=%v",
 					r.id, r.key, r.due, r.client, e.Now, mc.ArmedTimers(), e.Parked())
@@ -242,6 +269,7 @@ func scriptName(scripts [][]op) string {
 func scenarios() []hx.Scenario {
 	alpha := []op{
 		{'E', "a", 10}, {'E', "a", 20}, {'E', "b", 10}, {'E', "b", 30}, {'E', "b", 0}, // (b@0 is already due: the run-at-once path)
+		{'E', "c", -1}, // far future ("never")
 		{'D', "a", 0}, {'D', "b", 0}, {'W', "", 15}, {'C', "", 0},
 	}
 	var seqs [][]op
@@ -259,6 +287,7 @@ func scenarios() []hx.Scenario {
 	var out []hx.Scenario
 	epoch := time.Date(2024, 1, 1, 0, 0, 0, 0, time.UTC)
 	add := func(scripts [][]op, thoroughOnly bool, sem mc.TimerSem, clock []time.Duration, tag string) {
+		timeline := strings.HasPrefix(tag, "tl:")
 		hasE := false
 		for _, s := range scripts {
 			for _, o := range s {
@@ -275,8 +304,8 @@ func scenarios() []hx.Scenario {
 			Name:         tag + scriptName(scripts),
 			Class:        "queue.Processor",
 			ThoroughOnly: thoroughOnly,
-			Opts:         mc.Options{Bound: 2, TieCost: 1, AutoClock: true, ClockSteps: clock, Horizon: time.Second, TimerSem: sem, Epoch: epoch},
-			Mk:           func() *mc.Exec { return mkExec(sc, epoch) },
+			Opts:         mc.Options{Bound: 2, TieCost: 1, AutoClock: true, ClockLast: timeline, ClockSteps: clock, Horizon: time.Second, TimerSem: sem, Epoch: epoch},
+			Mk:           func() *mc.Exec { return mkExec(sc, epoch, timeline) },
 		})
 	}
 	for i, s1 := range seqs {
@@ -286,6 +315,9 @@ func scenarios() []hx.Scenario {
 			}
 			quick := len(s1)+len(s2) <= 3
 			add([][]op{s1, s2}, !quick, mc.TimerGo123, nil, "")
+			if quick {
+				add([][]op{s1, s2}, len(s1)+len(s2) > 2, mc.TimerGo123, nil, "tl:")
+			}
 			if len(s1)+len(s2) <= 2 {
 				add([][]op{s1, s2}, false, mc.TimerLegacy, nil, "legacy:")
 				// scripted clock: 0.6ms steps land 0.4ms before / past the due times
